@@ -124,6 +124,17 @@ pub fn held_push(n: i64, h: Held) {
 pub fn held_pop() -> Option<(i64, Held)> {
     HELD.try_with(|v| v.borrow_mut().pop()).ok().flatten()
 }
+/// Takes the entry with that name out of the stack (it need not be on top: a scope may be closed
+/// while local spans recorded in it are still open).
+pub fn held_remove(n: i64) -> Option<Held> {
+    HELD.try_with(|v| {
+        let mut v = v.borrow_mut();
+        let i = v.iter().rposition(|x| x.0 == n)?;
+        Some(v.remove(i).1)
+    })
+    .ok()
+    .flatten()
+}
 pub fn held_top_name() -> Option<i64> {
     HELD.try_with(|v| v.borrow().last().map(|x| x.0)).ok().flatten()
 }
@@ -409,30 +420,24 @@ fn do_op(
                 "lcdrop" => "c",
                 _ => "l",
             });
-            if held_top_name() == Some(want) {
-                let h = held_pop();
-                drop(h);
-            } else {
-                out.insert("harness".into(), json!("ill-nested"));
+            match held_remove(want) {
+                Some(h) => drop(h),
+                None => {
+                    out.insert("harness".into(), json!("ill-nested"));
+                }
             }
         }
         "lcstart" => {
             held_push(geti("c"), Held::Coll(LocalCollector::start()));
         }
         "lccollect" => {
-            if held_top_name() == Some(geti("c")) {
-                match held_pop() {
-                    Some((_, Held::Coll(c))) => {
-                        rc.lsets.lock().unwrap().insert(geti("ls"), c.collect());
-                    }
-                    Some(other) => {
-                        HELD.with(|v| v.borrow_mut().push(other));
-                        out.insert("harness".into(), json!("ill-nested"));
-                    }
-                    None => {}
+            match held_remove(geti("c")) {
+                Some(Held::Coll(c)) => {
+                    rc.lsets.lock().unwrap().insert(geti("ls"), c.collect());
                 }
-            } else {
-                out.insert("harness".into(), json!("ill-nested"));
+                _ => {
+                    out.insert("harness".into(), json!("ill-nested"));
+                }
             }
         }
         "lenter" => {
